@@ -131,6 +131,24 @@ check("C15", level="model_checking", engine="ix",
            "depfiles without ':' and dependencies re-used as targets with dependencies must be rejected.",
       note="Trusted base: reference encoder and representability predicate in src/ix/depfile.cc.", design_ref="5/C15")
 
+check("C18", level="model_checking", engine="nx",
+      technique="explicit-state BFS over tree/log states x every clean scope through the real front end; reference scope model on the true graph",
+      text="From every world reached in the clean templates every clean invocation (all, -g, each target and pairs, each rule "
+           "incl. the built-in phony, cleandead; with and without -n) is executed through ninja's real main; the set of "
+           "deleted files must equal the reference scope restricted to existing files, -n must delete nothing and list the "
+           "same set, and the following build must satisfy the clean-build oracle.",
+      note=NX_NOTE + " The generator exemption is checked for the no-argument scope as the manual defines it; explicit "
+           "target/rule scopes include generator statements.", design_ref="5/C18")
+check("C19", level="model_checking", engine="nx",
+      technique="explicit-state BFS over tree/log states x every read-only tool and -n through the real front end; before/after world comparison, differential next build, prediction and JSON oracles",
+      text="From every world reached in the tool templates, -n and each read-only tool is executed through ninja's real "
+           "main: no command starts, the world (files + parsed meaning of both logs) is unchanged, the next real build is "
+           "identical to the one from the untouched world, -n predicts the real build's commands (superset under restat "
+           "pruning) in dependency order, -t commands lists the closure in dependency order, compdb output is strict JSON "
+           "for every byte a manifest can carry.",
+      note=NX_NOTE + " Directories created by a dry run's MakeDirs are recorded but not judged (DESIGN.md 5/C19).",
+      design_ref="5/C19")
+
 ALL = ["C%02d" % i for i in range(1, 21)]
 
 
